@@ -7,10 +7,15 @@ open GB GB.Proto
   fuzz ops      `http <tag> <script> <hexreq>`, `ws <tag> <script> <hextarget> <hexheaders> <end> <frames…>`
                  => `res=… key=value …` (observed outcome)
   differential  `mdkey`, `gwsmsg`, `gwrecv`, `rslice`, `rpcname`, `dtidx`, `fkey`, `wserr`, `wrap`, `hst`, `tfp`
+  (the models compared are the Fault-explicit ones of Model.lean, proved equal to the imported C03/C08/C13/C19 models)
 -/
 
 def kvGet (toks : List String) (k : String) : Option String :=
   (toks.find? (fun t => t.startsWith (k ++ "="))).map (fun t => (t.drop (k.length + 1)).toString)
+
+/-- a list of header lines: `-` (no line) or hex fields joined by `,` -/
+def parseHexList (s : String) : Option (List Bytes) :=
+  if s == "-" then some [] else (s.splitOn ",").mapM parseHex
 
 def parseScript (s : String) : Option Script :=
   -- n<k>c<code>w<0|1>
@@ -52,7 +57,7 @@ def natOr (o : Option String) (d : Nat) : Nat := (o.bind String.toNat?).getD d
 
 def showList (l : List String) : String := ",".intercalate l
 
-def entryName : Entry → String
+def entryName : GB.C19.Bridge → String
   | .http => "http" | .ws => "ws" | .grpcweb => "grpcweb" | .grpcws => "grpcws"
 
 def verdict (viol mism : List String) (ok : String) : String :=
@@ -67,9 +72,9 @@ def handleHttp (script : String) (o : List String) : String :=
   | some res, some scr =>
     if res == .reject then "OK b=nethttp-reject"
     else
-      match (kvGet o "hc" >>= parseHex), (kvGet o "hu" >>= parseHex), (kvGet o "hct" >>= parseHex) with
-      | some hc, some hu, some hct =>
-        let entry := dispatch hc hu hct (b1 (kvGet o "sp"))
+      match (kvGet o "hc" >>= parseHexList), (kvGet o "hu" >>= parseHexList), (kvGet o "hp" >>= parseHexList), (kvGet o "hct" >>= parseHexList) with
+      | some hc, some hu, some hp, some hct =>
+        let entry := GB.C19.dispatch { connection := hc, upgrade := hu, protocol := hp, contentType := hct }
         let route := (kvGet o "route").getD "none"
         let c : HttpCase := {
           res := res, entry := entry, tag := parseTag ((kvGet o "tag").getD "none"),
@@ -85,7 +90,7 @@ def handleHttp (script : String) (o : List String) : String :=
         let inv := if invalidOnTranscodedRoute c then "-invalid" else ""
         let nt := if c.routeOK || c.entry != .http then " nt" else ""
         verdict (httpViolations c) (httpMismatches c) s!"OK{nt} b={entryName entry}-{cls}{inv}"
-      | _, _, _ => "BAD http fields"
+      | _, _, _, _ => "BAD http fields"
 
 def parseEnd : String → Option End
   | "close" => some .close | "drop" => some .drop | "wait" => some .wait | _ => none
@@ -177,11 +182,13 @@ def handleCore : List String → List String → String
   | ["gwsmsg", "1", cl, hd], out =>
     match parseHex hd with
     | some d =>
-      let m := (gwsOnMessage (cl == "1") d).map (fun o =>
-        let (dl, data, err) := match o.delivered with
-          | some (d, e) => ("1", toHex d, b01 e) | none => ("0", "x", "0")
-        s!"closed={b01 o.closed} dl={dl} data={data} err={err} ec={b01 o.closeEvents}")
-      cmp (" ".intercalate out) m (if d.length > 6 then "gwsmsg-deliver" else "gwsmsg-short")
+      let m := (gwsOnMessage { receivedMD := true, closed := cl == "1" } d).map (fun (st, evs) =>
+        let (dl, data, err) := match evs.head? with
+          | some (GB.C08.WSEv.msg m) => ("1", toHex m, "0")
+          | some (GB.C08.WSEv.err _) => ("1", "x", "1")
+          | _ => ("0", "x", "0")
+        s!"closed={b01 st.closed} dl={dl} data={data} err={err} ec={b01 (evs.contains GB.C08.WSEv.eof)}")
+      cmp (" ".intercalate out) m (if d.length ≥ 6 then "gwsmsg-deliver" else "gwsmsg-short")
     | none => "BAD hex"
   | ["gwsmsg", "0", cl, _], out =>
     -- metadata frame: textproto parsing is not modelled; both permitted outcomes are panic-free
@@ -198,22 +205,23 @@ def handleCore : List String → List String → String
       | .ok r =>
         if impl.startsWith "PANIC" then s!"VIOL panic impl={impl}"
         else
-          let permitted : List String := match r with
+          let n := b.length - r.2.length
+          let permitted : List String := match r.1 with
             | .eof => ["n=0 eof=1 code=-1 unk=x"]
-            | .unavailable n => [s!"n={n} eof=0 code=14 unk=x"]
-            | .empty n => [s!"n={n} eof=0 code=-1 unk=x"]
-            | .payload n d => [s!"n={n} eof=0 code=-1 unk={toHex d}", s!"n={n} eof=0 code=2 unk=x", s!"n={n} eof=0 code=13 unk=x"]
+            | .err e => [s!"n={n} eof=0 code={e.code} unk=x"]
+            | .msg [] => [s!"n={n} eof=0 code=-1 unk=x"]
+            | .msg d => [s!"n={n} eof=0 code=-1 unk={toHex d}", s!"n={n} eof=0 code=2 unk=x", s!"n={n} eof=0 code=13 unk=x"]
           if permitted.contains impl then
-            s!"OK nt b=gwrecv-{match r with | .eof => "eof" | .unavailable _ => "short" | .empty _ => "empty" | .payload _ _ => "payload"}"
+            s!"OK nt b=gwrecv-{match r.1 with | .eof => "eof" | .err .oversize => "oversize" | .err _ => "short" | .msg [] => "empty" | .msg _ => "payload"}"
           else s!"DIFF model={"|".intercalate permitted}"
     | none => "BAD hex"
   | ["rslice", hp, hv], out =>
     match parseHex hp, parseHex hv with
     | some p, some v =>
       let m := (routeSlices p v).map (fun r => match r with
-        | .invalid => "inv" | .notFound => "nf"
+        | .invalid => "inv" | .skipRoute => "nf"
         | .comps cs verb => if verb == v then s!"ok:{toHex (joinSlash cs)}" else "nf")
-      cmp (" ".intercalate out) m (match routeSlices p v with | .ok (.comps _ _) => "rslice-comps" | .ok .notFound => "rslice-verbonly" | _ => "rslice-inv")
+      cmp (" ".intercalate out) m (match routeSlices p v with | .ok (.comps _ _) => "rslice-comps" | .ok .skipRoute => "rslice-verbonly" | _ => "rslice-inv")
     | _, _ => "BAD hex"
   | ["rpcname", hn], out =>
     match parseHex hn with
@@ -228,7 +236,7 @@ def handleCore : List String → List String → String
   | ["fkey", hk, hp], out =>
     match parseHex hk, parseHex hp with
     | some k, some p =>
-      let m := (filterKey k p).map (fun (k1, isBin) => s!"key {toHex (toLowerAscii k1)} bin={b01 isBin}")
+      let m := (filterKey k p).map (fun (k1, isBin) => s!"key {toHex (GB.C19.lower k1)} bin={b01 isBin}")
       cmp (" ".intercalate out) m "fkey"
     | _, _ => "BAD hex"
   | ["wserr", kind], out =>
@@ -244,10 +252,6 @@ def handleCore : List String → List String → String
       let r := cmp (" ".intercalate out) (.ok s!"code={c} form={b01 form}") "wserr"
       if valid then r else s!"VIOL invalid close code {c}"
     | none => "BAD kind"
-  | ["wstrunc", hm], out =>
-    match parseHex hm with
-    | some m => cmp (" ".intercalate out) ((truncateCloseReason m).map toHex) (if m.length > 123 then "wstrunc-cut" else "wstrunc-fit")
-    | none => "BAD hex"
   | ["wrap", dir, kind], out =>
     match parseErrKind kind with
     | some e =>
